@@ -8,5 +8,7 @@ mkdir -p $D && rsync -a --exclude .git /repo/ $D/
 sed -i -E "$E" "$D/$F"
 if diff -q /repo/$F $D/$F >/dev/null; then echo "MUTATION DID NOT APPLY"; rm -rf $D; exit 2; fi
 diff /repo/$F $D/$F | head -6
-cd /verif && MUNGE_REPO=$D VERIF_SEED=$S ./check $P 2>&1 | grep -E "VIOLATION|KNOWN|OBLIGATION FAILED|done:" | cut -c1-400
+cd /verif && cp -f evidence/$P.json /tmp/evidence-$P.bak 2>/dev/null
+MUNGE_REPO=$D VERIF_SEED=$S ./check $P 2>&1 | grep -E "VIOLATION|KNOWN|OBLIGATION FAILED|done:" | cut -c1-400
+cp -f /tmp/evidence-$P.bak evidence/$P.json 2>/dev/null   # evidence files describe runs on /repo only
 rm -rf $D
